@@ -6,7 +6,9 @@ reference reader (unit designator -> field layout) and compared with the constru
 """
 from __future__ import annotations
 
+import copy
 import itertools
+import pickle
 import re
 
 from mc.common import Result, h64
@@ -263,6 +265,13 @@ def run_embed(case, res):
                     texts.append(mode(STMT_EMBED[pos[5:]](Q, Interval(**kw))))
                 except Exception as e:
                     texts.append("!" + type(e).__name__)
+            if not (pos.startswith("stmt:setop") or pos == "stmt:create_as" or "other_cls" in pos or "via_table" in pos):
+                # the statement built through the generic class and rendered with this dialect's context handed over explicitly
+                for mode in (lambda o: o.get_sql(Q.SQL_CONTEXT), lambda o: o.get_parameterized_sql(Q.SQL_CONTEXT)[0]):
+                    try:
+                        texts.append(mode(STMT_EMBED[pos[5:]](fp.QCLS["generic"], Interval(**kw))))
+                    except Exception as e:
+                        texts.append("!" + type(e).__name__)
             text = texts[0]
             for alt in texts[1:]:
                 lits_alt = EXTRACT[form].findall(alt)
@@ -306,6 +315,20 @@ def run_case(case):
             comp[i] = -comp[i]
         iv = Interval(*comp)
         exp = expected(comp)
+    # duplicates of the interval (copy, deepcopy, pickle) denote the same duration
+    base_text = None
+    try:
+        base_text = iv.get_sql(fp.CTX["mysql"])
+        for how, dup in (("copy", copy.copy(iv)), ("deepcopy", copy.deepcopy(iv)), ("pickle", pickle.loads(pickle.dumps(iv, 2)))):
+            res.transitions += 1
+            t2 = dup.get_sql(fp.CTX["mysql"])
+            if t2 != base_text:
+                res.violate("C18|duplicate|%s|%s" % (how, "neg" if exp[0] < 0 else "pos"), "a %s of the interval renders another literal" % how,
+                            components=comp if comp is not None else {case["k"]: case["v"]}, original=base_text, duplicate=t2)
+                break
+    except Exception as e:
+        res.violate("C18|duplicate|raises|%s" % type(e).__name__, "duplicating / rendering the interval raised",
+                    components=comp if comp is not None else {case["k"]: case["v"]})
     for d, (ctx, form) in _CTXS.items():
         res.transitions += 1
         try:
